@@ -262,7 +262,9 @@ _ALSO = {
             "values is written as a three-digit octal escape between quotes and the reader's octal decoder yields the same "
             "byte; text reaches an io sink only through write_all / "
             "write_fmt; on the leading-digit path the token reaches the numeric sub-parser without a data-dependent "
-            "pre-filter.", None),
+            "pre-filter; a letter-initial name, which the printer writes verbatim, is read back as that symbol unless it is "
+            "exactly the `nil` / `t` the parser options give a meaning to or ends in the postfix-keyword colon - case variants "
+            "(`NIL`, `Nil`, `T`) included (decision table over 13 texts x option values, shared with C08).", None),
     "C03": ("the reader's lookahead byte is discarded only right after a peek that returned a byte (typestate over all "
             "abstract paths, with a fixpoint over functions that start by discarding); helpers the counter logic is split "
             "into (enter/leave style) are summarised by outcome (result variant, delta, tested) and accounted for at each "
@@ -318,6 +320,11 @@ _ALSO = {
             "datum (the element list of a byte vector, the closing delimiter).", None),
     "C12": ("the fused flag lives in the parser, not in the per-call iterator object, and no function reachable from the "
             "iterator entry points (including value_iter / datum_iter) clears it.", None),
+    "C19": ("the stream's line/column counter starts a new line at exactly the byte the slice recount does (the line feed, "
+            "nothing else, over all 256 byte values): the line of an error location counts the same lines for every kind of "
+            "input (shared with C11); every proper prefix (two bytes or more) of each of the 12 character names the R6RS "
+            "character reader accepts - the names are discovered by evaluating the reader on ranged bytes - followed by the "
+            "end of input is reported with an Eof code (39 prefixes).", None),
     "C16": ("a hand-written Drop for a spine type may skip the detaching loop only on a test of the chain's own shape "
             "(a branch on anything else that returns with the tail attached hands the chain to the recursive drop glue); "
             "the cdr of a cell reached through a car is an element's payload, not the spine.", None),
@@ -327,7 +334,11 @@ _ALSO = {
             "for lookup by name, the same kind and text for lookup by value - and None otherwise (24 cases); "
             "the tail handling of the list traversals maps each cdr shape to the documented outcome; the hand-written, "
             "iterative Cons::clone (which the cloning conversions go through) gives back the cells, elements and tail of "
-            "1..3-element chains with six kinds of tail and nested chains (20 cases).", None),
+            "1..3-element chains with six kinds of tail and nested chains (20 cases); Value::append / list, the three vector "
+            "conversions of a cell chain, Value::to_vec / to_ref_vec, is_list / is_dotted_list, positional indexing (i = 0..n+1) "
+            "and the number of cells Cons::iter visits, each evaluated on structural chains of 0..3 elements with six kinds "
+            "of tail (278 cases, loops unrolled over the concrete cells), give the (xs, t) answers the property states - "
+            "cases with small n, not all lists.", None),
 }
 for _k, (_t, _tech) in _ALSO.items():
     CLAIMS[_k]["text"] = CLAIMS[_k]["text"] + " Also claimed: " + _t
